@@ -17,7 +17,7 @@ ASSUMPTIONS = [
     "stored fingerprint 0 (the empty-slot marker) is excluded from pre-states here; it is the subject of C05/F5",
 ]
 BOUNDS = {
-    "quick": "capacity 1..3, bucket_size 1..2, max_swaps 1..2, auto_expand on/off, fingerprint size 4 bytes (and 1 byte on capacity 2), every occupancy shape of the table; expansion_rate 2",
+    "quick": "capacity 1..3, bucket_size 1..2, max_swaps 1..2 (and 3 on the full 3 x 1 table without auto-expansion), auto_expand on/off, fingerprint size 4 bytes (and 1 byte on capacity 2), every occupancy shape of the table; expansion_rate 2",
     "thorough": "adds max_swaps 3 and capacity 3 x bucket 2 with auto_expand on",
     "outside": "capacity > 3, bucket_size > 2, max_swaps > 3 (longer eviction chains), expansion_rate other than 2",
 }
@@ -273,6 +273,10 @@ def _cfgs(tier, counting):
                     if auto and cap * bsz >= 3 and sum(occ) == cap * bsz:
                         continue      # a failed insert on a FULL table of 3+ slots with auto-expansion: > 50 min per job
                     out.append({"cap": cap, "bsz": bsz, "swaps": swaps, "auto": auto, "occ": occ, "counting": counting})
+    if tier == "quick":
+        # a chain three kicks deep on the full 3 x 1 table (round 5: a shortcut in the kick loop that is only wrong from the
+        # second kick on, and parks the fingerprint in hand in a bucket of the NEW key, needs max_swaps >= 3 and capacity >= 3)
+        out.append({"cap": 3, "bsz": 1, "swaps": 3, "auto": False, "occ": [1, 1, 1], "counting": counting})
     # one-byte fingerprints on a small table
     for occ in _occs(2, 1):
         out.append({"cap": 2, "bsz": 1, "swaps": 1, "auto": False, "occ": occ, "counting": counting, "fsz": 1})
